@@ -108,6 +108,8 @@ def close(a, b, tol=1e-9):
         if isinstance(a, (bool, np.bool_, str)) or isinstance(b, (bool, np.bool_, str)):
             return type(a) == type(b) and a == b
         ca, cb = complex(a), complex(b)
+        if ca == cb or (ca != ca and cb != cb):
+            return True            # identical values, including equal infinities and NaN on both sides (overflow in both)
         return abs(ca - cb) <= tol * max(1.0, abs(ca), abs(cb))
     except Exception:  # noqa: BLE001
         return False
